@@ -1,6 +1,7 @@
 (* C01 -- property theorems only.  Proofs live in C01/Proofs*.v. *)
 From Coq Require Import NArith List.
-From DV Require Import Base.Outcome Base.Bytes Base.Names Base.PName C01.Gen C01.Model C01.Proofs C01.Proofs2 C01.Proofs3.
+From DV Require Import Base.Outcome Base.Bytes Base.Names Base.PName C01.Gen C01.Model C01.Model2 C01.Proofs C01.Proofs2 C01.Proofs3 C01.Proofs4 C01.Proofs5.
+From DV Require Import C05.Schema C05.Model.
 Import ListNotations.
 Local Open Scope N_scope.
 
@@ -91,3 +92,82 @@ Print Assumptions C01_canonical_rounds.
 Theorem C01_read_all_total : forall m, no_panic (read_all m).
 Proof. exact read_all_total. Qed.
 Print Assumptions C01_read_all_total.
+
+(* ---- widening round ---- *)
+
+(* ParsedName::split_first on a validated name: None exactly for the root name,
+   otherwise the first label in wire form and a validated rest.  The peek
+   unwrap, seek unwrap, unreachable!(), u16 underflow and range index are
+   unreachable. *)
+Theorem C01_split_first_valid : forall m p ls, valid_pn m p ls ->
+  match ls with
+  | [] => split_first m p = Ok None
+  | l :: ls' => exists p', split_first m p = Ok (Some (wire_label l, p')) /\ valid_pn m p' ls'
+  end.
+Proof. exact split_first_valid. Qed.
+Print Assumptions C01_split_first_valid.
+
+Theorem C01_parent_valid : forall m p ls, valid_pn m p ls ->
+  match ls with
+  | [] => parent m p = Ok None
+  | l :: ls' => exists p', parent m p = Ok (Some p') /\ valid_pn m p' ls'
+  end.
+Proof. exact parent_valid. Qed.
+Print Assumptions C01_parent_valid.
+
+(* reverse iteration (next_back) yields the labels backwards, root first *)
+Theorem C01_rev_labels_valid : forall m p ls, valid_pn m p ls -> pn_len p <= 255 ->
+  pname_rev_labels m p = Ok (rev (ls ++ [[]])).
+Proof. exact rev_labels_valid. Qed.
+Print Assumptions C01_rev_labels_valid.
+
+(* as_flat_slice of a parsed name indexes within the parser's limit *)
+Theorem C01_as_flat_slice_in_bounds : forall m pos lim p,
+  parse_ref m pos lim = Ok p -> lim <= mlen m ->
+  as_flat_slice m p = Ok (if pn_compressed p then None
+                          else Some (slice m (pn_pos p) (pn_pos p + pn_len p))) /\
+  (pn_compressed p = false -> pn_pos p + pn_len p <= lim).
+Proof. exact as_flat_slice_in_bounds. Qed.
+Print Assumptions C01_as_flat_slice_in_bounds.
+
+(* all derived operations on every name parse_ref accepts: no panic, and they
+   compute what the label list says (iter_suffixes has one suffix per label
+   plus the root) *)
+Theorem C01_name_ops_total : forall m pos lim p,
+  parse_ref m pos lim = Ok p -> lim <= mlen m ->
+  exists ls o, name_ops_of m p = Ok o /\ pname_labels m p = Ok (ls, true) /\
+    no_rev o = rev (ls ++ [[]]) /\ no_split o = map wire_label ls /\
+    length (no_suffixes o) = S (length ls) /\
+    no_flat o = (if pn_compressed p then None else Some (slice m (pn_pos p) (pn_pos p + pn_len p))).
+Proof. exact name_ops_total. Qed.
+Print Assumptions C01_name_ops_total.
+
+(* typed record data: for EVERY schema of the C05 language (hence every record
+   type of its table and the opaque fallback), parsing out of the RDLENGTH
+   sub-parser never panics *)
+Theorem C01_typed_rdata_total : forall s m pos lim, lim <= mlen m ->
+  no_panic (parse_rdata pname_dec s m pos lim).
+Proof. exact parse_rdata_total. Qed.
+Print Assumptions C01_typed_rdata_total.
+
+(* XfrResponseInterpreter, first message: the dispatch is total (no unreachable!) *)
+Theorem C01_xfr_first_total : forall m, has_header m -> no_panic (xfr_first m).
+Proof. exact xfr_first_total. Qed.
+Print Assumptions C01_xfr_first_total.
+
+(* read-side calls in ANY order, iterator steps interleaved arbitrarily, on
+   every octet string *)
+Theorem C01_read_ops_total : forall m ops, no_panic (read_ops m ops).
+Proof. exact read_ops_total. Qed.
+Print Assumptions C01_read_ops_total.
+
+(* ... and a message-level call returns the same whatever happened before *)
+Theorem C01_calls_do_not_interfere : forall m st st' o,
+  match o with OQNext _ | OQAnswer _ | ORNext _ | ORNextSection _ => False | _ => True end ->
+  ofst (run_op m st o) = ofst (run_op m st' o).
+Proof. exact run_op_state_independent. Qed.
+Print Assumptions C01_calls_do_not_interfere.
+
+Theorem C01_source_constants_peek : gen_matches_peek = true.
+Proof. exact gen_matches_peek_ok. Qed.
+Print Assumptions C01_source_constants_peek.
